@@ -9,6 +9,7 @@ import (
 	"net/http"
 	"net/url"
 	"reflect"
+	"runtime"
 	"sort"
 	"strconv"
 	"strings"
@@ -26,6 +27,7 @@ func init() {
 		"compared between gateway / JSON-RPC and native; malformed gateway requests (missing service path / method / serialize type, non-numeric id / types, unparsable "+
 		"metadata) must be rejected without a handler invocation (also replayed on the Lean gateway model); the Lean models of url.QueryEscape / QueryUnescape / ParseQuery / "+
 		"Values.Encode, strconv.ParseUint / Atoi and HTTPRequest2RpcxRequest are diffed against the real functions on generated strings; "+
+		"JSON-RPC notifications held in a slow post-read stage while other calls are served must be executed as themselves, once; "+
 		"non-trivial = request with metadata, failure or malformation; distinct = distinct input line",
 		runC19)
 }
@@ -284,6 +286,7 @@ func runC19(o *Out, r *rand.Rand) {
 		c19Equivalence(o, rig, q)
 	}
 	c19Malformed(o, rig, r, &id)
+	c19Notification(o, rig, r, &id)
 }
 
 func c19Args(q *c19Req, id int) *SArgs {
@@ -525,6 +528,79 @@ func c19Malformed(o *Out, rig *srvRig, r *rand.Rand, id *int) {
 			} else if !isErr {
 				o.Violate("c19.malformed-not-rejected."+kind, "a malformed gateway request ("+kind+") was not answered with an error", rp)
 			}
+		}
+	}
+}
+
+// c19Notification: a JSON-RPC notification (no id) is executed after the endpoint has already
+// answered the HTTP request.  While it waits in a slow post-read stage, other JSON-RPC calls are
+// served; when it goes on it must be executed as ITSELF – the same service, method and arguments the
+// native protocol would execute for the identical one-way request.
+func c19Notification(o *Out, rig *srvRig, r *rand.Rand, id *int) {
+	rounds := 6
+	if thorough() {
+		rounds = 40
+	}
+	old := runtime.GOMAXPROCS(1) // what a sync.Pool recycles is what the next request gets
+	defer runtime.GOMAXPROCS(old)
+	for round := 0; round < rounds; round++ {
+		*id += 3
+		nid, cid := *id-2, *id-1
+		for len(holdArrived) > 0 {
+			<-holdArrived
+		}
+		// the notification: no "id" member
+		params, _ := json.Marshal(&SArgs{ID: nid, Mode: "ok"})
+		body := fmt.Sprintf(`{"jsonrpc":"2.0","method":"Svc.Do","params":%s}`, params)
+		req, _ := http.NewRequest("POST", "http://"+rig.addr+"/", strings.NewReader(body))
+		req.Header.Set("X-JSONRPC-2.0", "true")
+		req.Header.Set("Content-Type", "application/json")
+		req.Header.Set(server.XMeta, metaHeader(map[string]string{"hold": "1", "rid": fmt.Sprint(nid)}))
+		res := httpDo(req)
+		held := false
+		select {
+		case <-holdArrived:
+			held = true
+		case <-time.After(2 * time.Second):
+		}
+		// other calls on fresh connections while the notification waits
+		k := 1 + r.Intn(3)
+		var others []int
+		for j := 0; j < k; j++ {
+			*id++
+			others = append(others, *id)
+			jsonrpcCall(rig.addr, ingReq{id: *id, path: "Svc", method: "Do", args: &SArgs{ID: *id, Mode: "ok"}, meta: map[string]string{"rid": fmt.Sprint(*id)}})
+		}
+		_ = cid
+		if held {
+			holdRelease <- struct{}{}
+		}
+		// the notification runs in the background: wait for it
+		ran := 0
+		for w := 0; w < 200; w++ {
+			if ran = rig.invocations(nid); ran > 0 {
+				break
+			}
+			time.Sleep(5 * time.Millisecond)
+		}
+		o.Eval(fmt.Sprintf("jsonrpc notification round=%d held=%v others=%d", round, held, k), held)
+		o.Count("jsonrpc.notifications")
+		rp := map[string]any{"notification": map[string]any{"method": "Svc.Do", "args_id": nid}, "held_in_post_read_stage": held, "http_status_of_the_notification": res.status,
+			"calls_served_meanwhile": others}
+		for _, oid := range others {
+			if n := rig.invocations(oid); n != 1 {
+				rp["invocations_of_call"] = map[string]int{fmt.Sprint(oid): n}
+				o.Violate("c19.jsonrpc.notification-executed-as-another-request", fmt.Sprintf("JSON-RPC call %d was executed %d times while a notification was pending: the notification ran with another request's content", oid, n), rp)
+				return
+			}
+		}
+		if ran != 1 {
+			o.Violate("c19.jsonrpc.notification-lost", fmt.Sprintf("the JSON-RPC notification (args id %d) was executed %d times; the identical one-way request on the native protocol is executed once", nid, ran), rp)
+			return
+		}
+		if seen := rig.seenFor(nid); len(seen) == 1 && seen[0].args.ID != nid {
+			o.Violate("c19.jsonrpc.notification-args", "the notification's handler saw another request's arguments", rp)
+			return
 		}
 	}
 }
